@@ -175,6 +175,12 @@ def make_coder(api, flags, memlimit=MEMLIMIT):
         r = c.init("lzma_stream_decoder", memlimit, fl)
     elif api == "auto":
         r = c.init("lzma_auto_decoder", memlimit, fl)
+    elif api == "stream_mt":
+        import ctypes as C
+        mt = lz.Mt(); mt.flags = fl; mt.threads = 2; mt.timeout = 0
+        mt.memlimit_threading = memlimit; mt.memlimit_stop = memlimit
+        c.keep_mt = mt
+        r = c.init("lzma_stream_decoder_mt", C.byref(mt))
     else:
         raise ValueError(api)
     return c, r
